@@ -233,6 +233,44 @@ fn main() {
 		}
 		return;
 	}
+	if args.first().map(|s| s.as_str()) == Some("convmap") {
+		// `convmap JSON`: parses [[0],JSON] (JSON at offset 3) and prints the real BTreeMap::<String, bool>::try_from_json_at
+		// (the std impl needs V::Error: From<Mapped<Infallible>>, which bool's own error type is not: V is a newtype
+		// over bool whose error keeps the offset and the kinds)
+		use json_syntax::{code_map::Mapped, CodeMap, Kind, KindSet, Parse, TryFromJson, Unexpected, Value};
+		use std::collections::BTreeMap;
+		struct Mismatch(usize, KindSet, Kind);
+		impl From<Mapped<Unexpected>> for Mismatch {
+			fn from(e: Mapped<Unexpected>) -> Self {
+				Mismatch(e.offset, e.value.expected, e.value.found)
+			}
+		}
+		impl From<Mapped<std::convert::Infallible>> for Mismatch {
+			fn from(e: Mapped<std::convert::Infallible>) -> Self {
+				match e.value {}
+			}
+		}
+		struct Flag(bool);
+		impl TryFromJson for Flag {
+			type Error = Mismatch;
+			fn try_from_json_at(v: &Value, code_map: &CodeMap, offset: usize) -> Result<Self, Mismatch> {
+				Ok(Flag(bool::try_from_json_at(v, code_map, offset)?))
+			}
+		}
+		std::panic::set_hook(Box::new(|_| {}));
+		let doc = format!("[[0],{}]", args[1]);
+		let (outer, cm) = Value::parse_str(&doc).unwrap();
+		let target = &outer.as_array().unwrap()[1];
+		let r = std::panic::catch_unwind(std::panic::AssertUnwindSafe(|| match BTreeMap::<String, Flag>::try_from_json_at(target, &cm, 3) {
+			Ok(m) => format!("OK {}", m.iter().map(|(k, v)| format!("{}={}", k, v.0)).collect::<Vec<_>>().join(",")),
+			Err(e) => format!("ERR {} {} {:?}", e.0, if e.1 == KindSet::BOOLEAN { "BOOLEAN" } else if e.1 == KindSet::OBJECT { "OBJECT" } else { "OTHER" }, e.2),
+		}));
+		match r {
+			Ok(l) => println!("{}", l),
+			Err(_) => println!("PANIC"),
+		}
+		return;
+	}
 	if args.first().map(|s| s.as_str()) == Some("convert") {
 		// `convert DEPTH JSON`: parses [[0],JSON] with the real parser (JSON at offset 3) and prints the real
 		// Vec::<bool> (DEPTH 1) or Vec::<Vec<bool>> (DEPTH 2) ::try_from_json_at(V, code map, 3)
